@@ -11,4 +11,5 @@ globals().update(build('C11', 'Merging is associative, order-insensitive and nev
     'harness.agg.retrieval',
     'harness.agg.text',
     'harness.agg.generated',   # translate/scalar.py: generated scalar definitions (self-check + theorems)
+    'harness.agg.heapobs',     # array-valued state over buffer cells: returned values, caller writes (C11T)
 ]))
